@@ -5,6 +5,8 @@ import docx as D
 
 PROFILE = dict(p_table_junk=0.06, optional_absent=0.4, p_dangling_style=0.4, p_numbering=0.5, p_altcontent=0.2, p_sym=0.15, p_unknown=0.15, p_image=0.15, p_sdt=0.15,
                p_break=0.2, style_map=0.4, markdown=0.33, p_field=0.2, p_comment=0.15, p_note=0.15, separators=True, p_embedded_map=0.15, p_empty=0.25, p_comment_in_comment=0.5)
+# optional content of the numbering / styles / relationships parts and of w:rPr as Word writes it (opt-in keys of gen_docx)
+PROFILE.update(p_num_noise=0.4, p_optional_children=0.45, p_rpr_noise=0.3)
 
 
 def returns_normally(case, r):
@@ -32,11 +34,14 @@ def run(out, tier, seed, model_ok):
         if i % 3 == 0:
             c["options"]["styleMap"] = (c["options"].get("styleMap") or "") + "\ncomment-reference => sup"
     run_ = A.ApiRun(out, "C05", model_ok, project, observers=[returns_normally], name="total")
-    run_.run(cs, nontrivial=lambda c, r: any(f.startswith(("dangling", "altcontent", "sym", "unknown", "image-missing")) for f in c["features"]))
+    run_.run(cs, nontrivial=lambda c, r: any(f.startswith(("dangling", "altcontent", "sym", "unknown", "image-missing", "lvlOverride", "numstyle", "lvl-numfmt")) for f in c["features"]))
     out.rule = ("packages from the supported grammar with every optional construct independently present/absent (styles, numbering, content types, relationships parts; "
                 "property blocks; w:val; mc:Fallback; w:char) and tolerated references dangling (style ids, num ids, numStyleLink, image-less blips, unknown elements, "
                 "break types), x html/markdown/raw x option combinations; observation: returned normally, value is str, all messages are warnings; also compared with "
-                "the model's ok/exception outcome; non-trivial = at least one dangling/absent/unknown construct")
+                "the model's ok/exception outcome; in 40-45% of the packages the numbering, styles and relationships parts also carry the optional content the schema allows "
+                "(w:lvlOverride empty / start only / with w:lvl, picture bullets, w:name / w:styleLink, w:isLgl / w:legacy, a w:numFmt inside mc:AlternateContent; w:basedOn / "
+                "w:link / w:pPr / w:rPr / w:tblStylePr of styles, numbering styles with w:pPr / w:numPr / w:numId each optional, w:latentStyles, w:docDefaults; TargetMode) and "
+                "runs carry properties the converter does not read; non-trivial = at least one dangling/absent/unknown construct")
     out.extra["features"] = run_.stats
     out.sample({"options": cs[0]["options"], "parts": [p["name"] for p in cs[0]["parts"]]})
 
